@@ -2379,6 +2379,7 @@ class CallMixin:
         out = []
         if discard:
             self._last_closure_ret = BOT
+            self._last_closure_rets = []
         for st, v in rets:
             for key in [k for k in st.cells if k[0] == d]:
                 del st.cells[key]
@@ -2388,6 +2389,7 @@ class CallMixin:
                 self.write_dest(st, frame, t, v)
             else:
                 self._last_closure_ret = join(self._last_closure_ret, self.deep_resolve(st, v))
+                self._last_closure_rets.append((st, v))
             out.append(st)
         return self.limit(out, site=(frame.pathid, b, 'ret'), depth=frame.depth)
 
@@ -2438,6 +2440,24 @@ class CallMixin:
             # not stable after 3 rounds: forget everything the closure may have written
             self.havoc_value_targets(cur, env, self.site(frame, b, ('clh', idx)))
         return cur, res
+
+    def run_closure_once(self, frame, b, t, st, idx, body, quiet, arg_vals, env_val=None):
+        """a closure that library code calls exactly once (Option::map / and_then on a Some value):
+        returns the list of (state after, result) of its return paths, unmerged"""
+        env = env_val if env_val is not None else self.operand(st, frame, t['args'][idx])
+        fake_t = {'dest': {'l': 0, 'p': []}, 'args': [], 'sp': t.get('sp'), 't': 0, 'callee': None, 'k': 'call'}
+        argc = body['argc']
+
+        def mk(s2):
+            vals = [env]
+            for i in range(1, argc):
+                if arg_vals is not None and i - 1 < len(arg_vals):
+                    vals.append(arg_vals[i - 1])
+                else:
+                    vals.append(('T', body['locals'][i + 1], self.site(frame, b, ('cl', idx, i))))
+            return vals
+        self.inline(frame, b, fake_t, [st.copy()], body, None, quiet, args_override=mk, discard=True)
+        return list(self._last_closure_rets)
 
     def havoc_value_targets(self, st, v, site, depth=0):
         """havoc everything reachable through mutable references inside v"""
